@@ -225,3 +225,61 @@ def _lit_ci(ch, ci):
     if ci and ch.isascii() and ch.isalpha():
         return z3.Union(z3.Re(z3.StringVal(ch.lower())), z3.Re(z3.StringVal(ch.upper())))
     return z3.Re(z3.StringVal(ch))
+
+
+# --------------------------------------------------------------------------------------
+# temporal text (documented canonical formats: YYYY-MM-DD and YYYY-MM-DD HH:MM:SS.SSSSSS)
+
+
+def pad(n, width):
+    s = z3.IntToStr(n)
+    res = s
+    # fewest digits first
+    for digits in range(width - 1, 0, -1):
+        res = K.If(n < 10**digits, z3.Concat(z3.StringVal("0" * (width - digits)), s), res)
+    return res
+
+
+def date_text(days):
+    y, m, d, _ = K.civil(days)
+    return z3.Concat(pad(y, 4), z3.StringVal("-"), pad(m, 2), z3.StringVal("-"), pad(d, 2))
+
+
+def date_to_str(c: Cell) -> Cell:
+    if c.ty == NULLT:
+        return K.null_of(STR)
+    return Cell(STR, c.null, date_text(c.val))
+
+
+def dt_to_str(c: Cell, *, frac=True) -> Cell:
+    if c.ty == NULLT:
+        return K.null_of(STR)
+    days, sod = c.val / K.US_DAY, c.val % K.US_DAY
+    parts = [
+        date_text(days), z3.StringVal(" "), pad(sod / 3_600_000_000, 2), z3.StringVal(":"),
+        pad((sod / 60_000_000) % 60, 2), z3.StringVal(":"), pad((sod / 1_000_000) % 60, 2),
+    ]  # fmt: skip
+    if frac:
+        parts += [z3.StringVal("."), pad(sod % 1_000_000, 6)]
+    return Cell(STR, c.null, z3.Concat(*parts))
+
+
+def parse_temporal_const(c: Cell, tgt) -> Cell:
+    """ISO text -> date / datetime for *constant* text only (parsing symbolic text is
+    outside the model)"""
+    import datetime as _dt
+
+    if c.ty == NULLT:
+        return K.null_of(tgt)
+    if c.ty != STR or not z3.is_string_value(c.val):
+        raise Unsupported("parsing non-constant text as date / datetime")
+    t = c.val.as_string()
+    try:
+        if tgt == K.DATE:
+            return Cell(K.DATE, c.null, z3.IntVal(K.date_to_days(_dt.date.fromisoformat(t))))
+        v = _dt.datetime.fromisoformat(t)
+    except ValueError as e:
+        raise Unsupported(f"text {t!r} is not ISO temporal text") from e
+    if len(t) < 11:
+        raise Unsupported("date-only text as datetime")
+    return Cell(K.DT, c.null, z3.IntVal(K.dt_to_us(v)))
